@@ -33,7 +33,10 @@ FINISH = dict(
          "files under other namings, empty / directory certificate paths — same judge; and the real daemon's loop "
          "against the mock CA: fresh certificates (installed or just issued) are not requested again while watched, "
          "short-lived ones are requested again V-D-[0,R) s after issuance (gap judged by the same op), an unparsable "
-         "file never leads to a request and does not stop a healthy certificate.",
+         "file never leads to a request and does not stop a healthy certificate; the same with a NEIGHBOUR on the endpoint "
+         "(same account or its own) that waits 60 days for its date: a certificate without file is requested at once, one "
+         "becoming due (short / installed-short) when due, one whose file is removed while the daemon runs at the "
+         "evaluation that follows; a request for the neighbour is judged as well.",
 )
 
 NS = 10 ** 9
